@@ -30,6 +30,29 @@ ASSUMPTIONS = [A["A1"], A["A2"], A["A3"], A["A5"], A["A6"], A["ENGINE"],
 LIFTERS = []
 
 WITNESSES = {
+ "F17-remove-single-valued-child": r'''
+from graphql import parse, visit, Visitor, REMOVE, print_ast
+d = parse('{ a: b { c } }')
+class V(Visitor):
+    def enter_name(self, node, key, parent, path, ancestors):
+        if key == 'alias':
+            return REMOVE
+out = visit(d, V())
+assert out.definitions[0].selection_set.selections[0].alias is None
+assert print_ast(out) == print_ast(parse('{ b { c } }'))
+''',
+ "F18-leave-skip-keeps-edits": r'''
+from graphql import parse, visit, Visitor, REMOVE, SKIP, print_ast
+d = parse('{ a b }')
+class V(Visitor):
+    def enter_field(self, node, *a):
+        if node.name.value == 'a':
+            return REMOVE
+    def leave_selection_set(self, node, *a):
+        return SKIP
+out = visit(d, V())
+assert print_ast(out) == print_ast(parse('{ b }')), print_ast(out)
+''',
  "F4-root-skip-remove-replace": r'''
 from graphql import parse, visit, Visitor, SKIP, REMOVE, BREAK
 d = parse('{a {b} c}')
@@ -172,6 +195,28 @@ def replay_extra(o):
                 return dict(bad, confirmed=True, entry="parse + visit")
             return {"confirmed": False}
     return {"confirmed": False, "error": outp[-500:]}
+
+
+def bounded_checks(tier, seed):
+    """The edit application of visit() is waived in its contract; a reference traversal written
+    from the documentation stands in for it, bounded (props/C11_ref.py)."""
+    import json
+    code = ("import json\nfrom props.C11_ref import search\n"
+            f"r = search(seed={int(seed)}, thorough={tier == 'thorough'!r})\n"
+            "print('BOUNDED ' + json.dumps(r, default=str))")
+    rc, outp = run_native(code, timeout=900)
+    res, ok = None, False
+    for line in outp.splitlines():
+        if line.startswith("BOUNDED "):
+            res, ok = json.loads(line[8:]), True
+    if not ok:
+        raise RuntimeError(outp[-600:])
+    return [{"id": "C11/bounded/reference-traversal", "function": "graphql.language.visitor.visit",
+             "tool": "reference traversal (documented semantics) vs visit(), native",
+             "bound": "5 documents (<= 40 positions); every single decision; "
+                      + ("every pair of decisions" if tier == "thorough" else "150 seeded pairs per document")
+                      + "; actions SKIP, False, BREAK, REMOVE, replacement node, replacement value, the node itself",
+             "failed": res is not None, "input": res, "output": outp[-1500:]}]
 
 
 def native_checks(tier, seed):
